@@ -194,12 +194,19 @@ def judge(case, val, out):
         return _sv("trajectories of different length (%d vs %d poses) were aligned instead of refused" % (len(est), len(ref)))
     if "refused" in out:
         return None if model is None else _mv("implementation refused, model returns a result", "Align")
+    if case.get("degenerate_first_n"):
+        return _sv("n = %d is given and the first n positions of the estimate coincide (nothing can be determined from them), "
+                   "but an alignment was returned: it was not determined from the first n pose pairs only" % case["n"])
     after = [U(p, (4, 4)) for p in out["poses"]]
     kind = case["kind"]
+    for k, q in enumerate(after):   # orientations are R * R_p: still rotation blocks (both storage modes)
+        if not np.allclose(q[:3, :3].T @ q[:3, :3], np.eye(3), rtol=0, atol=1e-9):
+            return _sv("the rotation block of pose %d is not orthonormal after the alignment (max deviation %.3g)"
+                       % (k, float(np.abs(q[:3, :3].T @ q[:3, :3] - np.eye(3)).max())))
     if kind == "align":
         r, t, c = U(out["r"], (3, 3)), U(out["t"], 3), unhex(out["c"])
         # --- the property on the implementation's own output
-        if not np.allclose(r.T @ r, np.eye(3), atol=1e-9) or abs(np.linalg.det(r) - 1.0) > 1e-9 or not (c > 0):
+        if not np.allclose(r.T @ r, np.eye(3), rtol=0, atol=1e-9) or abs(np.linalg.det(r) - 1.0) > 1e-9 or not (c > 0):
             return _sv("returned alignment is not a similarity (rotation not proper: det = %.6g, scale %.6g)" % (np.linalg.det(r), c))
         for k, (p, q) in enumerate(zip(est, after)):
             if case["os"]:
@@ -219,6 +226,13 @@ def judge(case, val, out):
             slack = 1e-9 * max(sse(x), 1e-300) + n * (1e-12 * scale) ** 2
             if sse(xa) > sse(x) + slack:
                 return _sv("translational RMSE over the poses used is larger after the alignment than before")
+            try:   # a concrete competitor of the same class: the closed-form optimum evaluated independently with numpy
+                orr, ot, oc = np_umeyama(x.T, y.T, case["cs"])
+                if abs(np.linalg.det(orr) - 1.0) < 1e-9 and sse(xa) > sse(oc * (x @ orr.T) + ot) * (1 + 1e-6) + slack:
+                    return _sv("another transformation of the same class fits better than the returned alignment: sum of squared "
+                               "distances %r after align(), %r for the closed-form optimum" % (sse(xa), sse(oc * (x @ orr.T) + ot)))
+            except np.linalg.LinAlgError:
+                pass
             rng = np.random.default_rng(n)
             from harness.props.c09 import rodrigues_py
             for k in range(6):
@@ -230,7 +244,7 @@ def judge(case, val, out):
             if "twice" in out:
                 tw = out["twice"]
                 if not np.allclose(U(tw["r"], (3, 3)), np.eye(3), atol=1e-6) or not close(unhex(tw["c"]), 1.0, rtol=1e-6) \
-                        or not np.allclose(U(tw["t"], 3), 0.0, atol=1e-6 * scale):
+                        or not np.allclose(U(tw["t"], 3), 0.0, rtol=0, atol=1e-6 * scale):
                     return _sv("aligning an already aligned trajectory again is not the identity")
         # --- correspondence with the model on the same SVD answer
         if model is None:
@@ -326,6 +340,37 @@ def gen(ctx):
             nn = n      # n given explicitly and equal to the number of poses: the same alignment as n = -1
         cases.append({"kind": "align", "est": [H(p) for p in est], "ref": [H(p) for p in ref], "cs": mode == 1, "os": mode == 2,
                       "n": nn, "from_quat": bool(i % 2), "twice": bool(noise > 0 and noise < 1.0 and n >= 6 and i % 2 == 0)})
+    # similarity alignment with a scale a few 1e-6 away from 1 (inside the tolerance of evo's SE(3) membership test)
+    for i in range(ctx.n(12, 40)):
+        n = int(rng.integers(5, 30))
+        s_ = 1.0 + float([1e-6, -1e-6, 2e-6, -3e-6, 3e-6, 8e-6][i % 6])
+        ref, est = pair(n, 0.0, s_)
+        cases.append({"kind": "align", "est": [H(p) for p in est], "ref": [H(p) for p in ref], "cs": True, "os": False,
+                      "n": -1, "from_quat": bool(i % 2), "twice": False})
+    # geo-referenced (UTM-like) data: the estimate is the reference moved by a metre or so - tiny relative to the coordinates
+    for i in range(ctx.n(12, 40)):
+        n = int(rng.integers(5, 30))
+        off = np.array([4.5e5, 5.6e6, 300.0])
+        ref = mk_poses(rng, n, 5.0, 0.0, rot_mode="smooth")
+        for k, p in enumerate(ref):
+            p[:3, 3] = off + np.array([0.5 * k, math.sin(0.3 * k) * 3, 0.05 * k])
+        shift = rng.normal(size=3) * np.array([1.0, 1.0, 1e-3])
+        est = []
+        for p in ref:
+            q = p.copy()
+            q[:3, 3] = q[:3, 3] + shift
+            est.append(q)
+        cases.append({"kind": "align", "est": [H(p) for p in est], "ref": [H(p) for p in ref], "cs": bool(i % 2), "os": False,
+                      "n": -1, "from_quat": bool((i // 2) % 2), "twice": False})
+    # n given and the platform stands still during the first n poses: nothing can be determined from them
+    for i in range(ctx.n(9, 30)):
+        n = int(rng.integers(10, 30))
+        k0 = int(rng.integers(3, 8))
+        ref, est = pair(n, 0.05, 1.0)
+        for k in range(1, k0):
+            est[k][:3, 3] = est[0][:3, 3]
+        cases.append({"kind": "align", "est": [H(p) for p in est], "ref": [H(p) for p in ref], "cs": i % 3 == 1, "os": i % 3 == 2,
+                      "n": k0, "from_quat": bool(i % 2), "twice": False, "degenerate_first_n": True})
     # trajectories of different length (not synchronised): align() must refuse, not align against a prefix
     for i in range(ctx.n(12, 40)):
         n = int(rng.integers(6, 30))
